@@ -4,6 +4,7 @@
 From Coq Require Import List Bool String ZArith.
 Import ListNotations.
 From JV Require Import Model.SbxAttr Model.SbxAccess Model.SbxGen Proofs.SbxAccessProofs Proofs.SbxGenProofs.
+From JV Require Model.SbxCall Proofs.SbxCallProofs.
 Open Scope string_scope.
 
 (* The value of an attribute (or the sandboxed wrapper of a bound str.format / format_map found
@@ -83,6 +84,24 @@ Print Assumptions C17_codegen_no_raw_attr.
 Theorem C17_codegen_no_raw_attr_expr : forall m e, no_raw (gen m e) = true.
 Proof. exact gen_no_raw. Qed.
 Print Assumptions C17_codegen_no_raw_attr_expr.
+
+(* Stored method references that did NOT come through getattr / getitem — a bound str.format,
+   str.format_map or Markup.format the host put into the render data, directly or inside a dict /
+   list — are never run natively by a call written in the template: for every safety predicate,
+   world and binding, the log of the generated code of any expression contains no native invocation
+   of such a method (SandboxedEnvironment.call wraps it, so its field lookups are the
+   [get_field] of C17_format_fields_sandboxed).  Event-log semantics of Model/SbxCall. *)
+Theorem C17_host_format_methods_sandboxed :
+  forall policy invoke_result format_result env attr_of item_of filter_res test_res op_res m e c,
+  sandboxed m = true -> SbxCall.c_format c = true ->
+  ~ In (SbxCall.EvInvoke c)
+       (fst (SbxCall.eval policy invoke_result format_result env attr_of item_of filter_res test_res op_res (gen m e))).
+Proof.
+  intros policy invoke_result format_result env attr_of item_of filter_res test_res op_res m e c Hs Hf.
+  exact (SbxCallProofs.eval_format_never_native policy invoke_result format_result env attr_of item_of filter_res
+           test_res op_res (gen m e) c (gen_gated m e Hs) Hf).
+Qed.
+Print Assumptions C17_host_format_methods_sandboxed.
 
 (* ------------------------------------------------------------------ non-vacuity *)
 Definition ex_tables : tables := mkTables [] [] ["gi_frame"; "gi_code"] ["cr_frame"; "cr_code"] ["ag_code"; "ag_frame"].
